@@ -145,7 +145,7 @@ def prove_elem_le(I, st, small, big):
 
 def prove_scatter_sub(I, st, fr, x, ixs, rhs):
     if ixs[0] == "spkeys" and rhs[0] == "spcounts" and ixs[1] == rhs[1]:
-        if in_chain(fr, "graph::kahn"):
+        if getattr(I, "kahn_body_depth", 0) > 0:      # inside the body of a loop with kahn's signature (loop_specs)
             I.lemma_uses["KAHN-TRUSTED"] = I.lemma_uses.get("KAHN-TRUSTED", 0) + 1
             return "KAHN-TRUSTED"
     return None
